@@ -49,7 +49,7 @@ THEOREMS = [
     'C17.displacement_minimal', 'C17.single_and_no_neighbour', 'C17.ddvectors_length',
     # the conflict resolution of match_pq for ANY number of competing current vectors (no hypothesis on the lists)
     'C17.qpPairs_inv', 'C17.matchPQ_one_q_per_p', 'C17.matchPQ_winner_closest', 'C17.matchPQ_claimed_p_paired',
-    'C17.solveG_homogeneous_competing',
+    'C17.solveG_homogeneous_competing', 'C17.solveG_undeformed_extra_shells',
     # where the neighbour list comes from (neighbors= / cutoff= / attribute / refusal)
     'C17.nbrSource_precedence', 'C17.slipVectorCall_sources', 'C17.strainSources_spec',
 ]
@@ -1683,14 +1683,16 @@ def _search_homog(ctx, caseseed, it, reps=4):
     """homogeneous deformation gradient F: G = F^-T at every atom, strain / rotation / invariants from it, Nye = 0,
     displacement = (F - I) x; invariance under translation and renumbering."""
     rng = random.Random(caseseed)
-    ref = _reference(rng, None, False)
+    # (every sixth reference is bcc-like and analysed as a free block: edge / corner atoms with 2 / 1 neighbours)
+    block = it % 6 == 5
+    ref = _reference(rng, rng.choice(['bcc', 'B2', 'bcc']) if block else None, False)
     s0, name, a, shells, size = ref
     nl0 = s0.neighborlist(cutoff=shells[0][0] * a)
     for rep in range(reps):
-        _search_homog_one(ctx, rng, ref, nl0, caseseed, it, it * reps + rep)
+        _search_homog_one(ctx, rng, ref, nl0, caseseed, it, it * reps + rep, block and rep % 2 == 1)
 
 
-def _search_homog_one(ctx, rng, ref, nl0, caseseed, it0, it):
+def _search_homog_one(ctx, rng, ref, nl0, caseseed, it0, it, block=False):
     np = _np()
     import atomman as am
     s0, name, a, shells, size = ref
@@ -1699,11 +1701,14 @@ def _search_homog_one(ctx, rng, ref, nl0, caseseed, it0, it):
     cut = shells[0][0] * a
     F = _rand_F(rng, kind)
     pbcv = (True, True, True)
-    if it % 5 == 3:
+    if it % 4 == 3 or block:
         # periodicity switched off in 1-3 directions: surface / edge / corner atoms with few neighbours, down to
         # coplanar, collinear and single-vector sets (rank-deficient least squares)
         pbcv = tuple(rng.choice([(False, True, True), (True, False, True), (True, True, False), (False, False, True),
-                                 (False, True, False), (False, False, False), (False, False, False)]))
+                                 (False, True, False), (True, False, False), (False, False, False), (False, False, False),
+                                 (False, False, False)]))
+        if block:
+            pbcv = rng.choice([(False, False, False), (False, False, True), (True, False, False)])
         s0 = _system(s0, s0.atoms.pos.copy(), pbc=pbcv)
         nl0 = s0.neighborlist(cutoff=cut)
     s1 = _deform(s0, F)
